@@ -323,7 +323,7 @@ func rmKey(rm *protocol.ResolutionModel, err error) string {
 	if err != nil {
 		return "ERR"
 	}
-	ao, _ := json.Marshal(rm.AnchorOrigin)
+	ao := aoKey(rm.AnchorOrigin)
 	return fmt.Sprintf("doc=%s uc=%s rc=%s deact=%v last=(%d,%d) vid=%s cref=%s created=%d updated=%d ao=%s",
 		ref.DocKey(toPlain(rm.Doc)), rm.UpdateCommitment, rm.RecoveryCommitment, rm.Deactivated,
 		rm.LastOperationTransactionTime, rm.LastOperationTransactionNumber, rm.VersionID, rm.CanonicalReference,
@@ -334,7 +334,7 @@ func stKey(st *ref.State, err error) string {
 	if err != nil {
 		return "ERR"
 	}
-	ao, _ := json.Marshal(st.AnchorOrigin)
+	ao := aoKey(st.AnchorOrigin)
 	return fmt.Sprintf("doc=%s uc=%s rc=%s deact=%v last=(%d,%d) vid=%s cref=%s created=%d updated=%d ao=%s",
 		ref.DocKey(st.Doc), st.UpdateCommitment, st.RecoveryCommitment, st.Deactivated,
 		st.LastTime, st.LastNumber, st.VersionID, st.CanonicalRef, st.CreatedTime, st.UpdatedTime, ao)
@@ -563,4 +563,21 @@ func (a *coordAlloc) take(r *hx.Rng, tLo, tHi uint64) (uint64, uint64, string) {
 			return t, num, fmt.Sprintf("ref%d", a.n)
 		}
 	}
+}
+
+// aoKey renders an anchor origin value canonically (JSON value equality: -0 == 0).
+func aoKey(v interface{}) string {
+	b, err := json.Marshal(v)
+	if err != nil {
+		return "unmarshalable"
+	}
+	var t interface{}
+	if json.Unmarshal(b, &t) != nil {
+		return string(b)
+	}
+	s, err := ref.JCS(t)
+	if err != nil {
+		return string(b)
+	}
+	return s
 }
